@@ -254,6 +254,18 @@ func init() {
 			return fr.ex.funcID(f.Fn.String())
 		case boundMethod:
 			return fr.ex.funcID(f.fn.String())
+		case *value:
+			if f == nil {
+				return 0
+			}
+			return 1000 + fr.ex.objID(f)
+		case *omap:
+			if f == nil {
+				return 0
+			}
+			return 1000 + fr.ex.objID(f)
+		case chanValue:
+			return f.id
 		default:
 			if isNilRef(itf.v) {
 				return 0
